@@ -1,9 +1,240 @@
-//! C10 (connection part): handler receives exactly the bytes sent for every fragmentation and reader pace.
-use crate::check::Check;
-use crate::inbound::In;
-use crate::simnet::Violation;
+//! C10 (connection part): the handler that reads the payload receives exactly the bytes sent, in order,
+//! for every fragmentation of the inbound stream and every reader pace.
+use std::future::Future;
+use std::pin::Pin;
 
-pub fn run_conn_part(_ck: &mut Check, _full: bool) {
-    // filled in below (Engine A)
+use crate::check::Check;
+use crate::refmqtt::{self as rf, Pkt, Ver};
+use crate::simnet::{ExploreCfg, Outcome, Scenario, Violation};
+use crate::world::*;
+
+#[derive(Clone, Debug)]
+pub struct RdCfg {
+    pub ep: EpCfg,
+    /// payload sizes of the publishes in the stream
+    pub sizes: Vec<usize>,
+    /// sizes of the deliveries the explorer may choose from (besides "everything that is left")
+    pub steps: Vec<usize>,
+    pub max_deliveries: usize,
 }
-pub fn final_check(_s: &In) -> Result<(), Violation> { Ok(()) }
+
+#[derive(Clone, Copy, Debug, PartialEq, Eq)]
+pub enum REv {
+    /// deliver the next k bytes (0 = all that is left)
+    Deliver(u16),
+    /// lazy reader: allow the next read() call
+    Read,
+}
+
+pub struct Rd {
+    cfg: RdCfg,
+    conn: Conn,
+    stream: Vec<u8>,
+    payloads: Vec<Vec<u8>>,
+    pos: usize,
+    deliveries: Vec<usize>,
+    reads: usize,
+}
+
+impl Rd {
+    fn wit(&self, what: &str) -> String {
+        format!(
+            "{} reader={:?} min_chunk={} buffer={} {what}",
+            self.cfg.ep.label(),
+            self.cfg.ep.read_mode,
+            self.cfg.ep.min_chunk_size,
+            self.cfg.ep.max_payload_buffer_size
+        )
+    }
+    fn detail(&self) -> String {
+        format!("sizes={:?} deliveries={:?} reads_allowed={} wire_out={:?} log={:?}", self.cfg.sizes, self.deliveries, self.reads, self.conn.out_short(), self.conn.log.render())
+    }
+    fn ready(&self) -> bool {
+        self.conn.sink.borrow().is_some() && (self.cfg.ep.role == Role::Client || self.conn.log.count(|r| matches!(r, Rec::Handshake(s) if s == "accepted")) > 0)
+    }
+}
+
+impl Scenario for Rd {
+    type Cfg = RdCfg;
+    type Ev = REv;
+
+    fn build(cfg: &RdCfg) -> Pin<Box<dyn Future<Output = Self>>> {
+        let cfg = cfg.clone();
+        Box::pin(async move {
+            let conn = start_endpoint(&cfg.ep, vec![], true).await;
+            let ver = cfg.ep.ver;
+            let mut stream = vec![];
+            let mut payloads = vec![];
+            for (i, n) in cfg.sizes.iter().enumerate() {
+                // distinct byte per publish and position, all >= 0x80
+                let p: Vec<u8> = (0..*n).map(|j| 0x80 + ((i * 37 + j * 5) % 120) as u8).collect();
+                stream.extend(rf::encode(ver, &rf::publish(1, 1 + i as u16, "t", &p)));
+                payloads.push(p);
+            }
+            if cfg.ep.role == Role::Server {
+                stream.extend(rf::encode(ver, &Pkt::PingReq));
+            }
+            Rd { cfg, conn, stream, payloads, pos: 0, deliveries: vec![], reads: 0 }
+        })
+    }
+
+    fn enabled(&self, q: bool) -> Vec<REv> {
+        if !q || !self.ready() {
+            return vec![];
+        }
+        let mut v = vec![];
+        let left = self.stream.len() - self.pos;
+        if left > 0 {
+            if self.deliveries.len() < self.cfg.max_deliveries {
+                for s in &self.cfg.steps {
+                    if *s < left {
+                        v.push(REv::Deliver(*s as u16));
+                    }
+                }
+            }
+            v.push(REv::Deliver(0));
+        }
+        if !self.conn.rgates.waiting().is_empty() {
+            v.push(REv::Read);
+        }
+        v
+    }
+
+    fn apply(&mut self, ev: REv) {
+        match ev {
+            REv::Deliver(k) => {
+                let left = self.stream.len() - self.pos;
+                let n = if k == 0 { left } else { (k as usize).min(left) };
+                let b = self.stream[self.pos..self.pos + n].to_vec();
+                self.pos += n;
+                self.deliveries.push(n);
+                self.conn.send_raw(&b);
+            }
+            REv::Read => {
+                self.reads += 1;
+                let k = self.conn.rgates.waiting()[0];
+                self.conn.rgates.open(k, GateOutcome::Ok);
+            }
+        }
+    }
+
+    fn check(&mut self, _q: bool) -> Result<(), Violation> {
+        self.conn.pump();
+        if !self.conn.log.stops().is_empty() {
+            return Err(Violation::new("unexpected-stop", self.wit(""), format!("the connection ended: {:?}: {}", self.conn.log.stops(), self.detail())));
+        }
+        Ok(())
+    }
+
+    fn drain(&mut self) -> bool {
+        // everything is delivered by the explorer (Deliver(0) is always offered); let a lazy reader finish
+        if let Some(k) = self.conn.rgates.waiting().first() {
+            self.reads += 1;
+            self.conn.rgates.open(*k, GateOutcome::Ok);
+            return true;
+        }
+        false
+    }
+
+    fn finish(&mut self) -> Result<Outcome, Violation> {
+        self.check(true)?;
+        if self.pos < self.stream.len() {
+            return Ok(Outcome { obs: "stream not delivered".into(), nontrivial: false });
+        }
+        let log = self.conn.log.snapshot();
+        let abandon = self.cfg.ep.read_mode == ReadMode::Abandon;
+        for (i, want) in self.payloads.iter().enumerate() {
+            // handler k = i-th HEnter
+            let enter = log.iter().filter_map(|(_, r)| if let Rec::HEnter { k, size, pid, .. } = r { Some((*k, *size, *pid)) } else { None }).nth(i);
+            let Some((k, size, pid)) = enter else {
+                return Err(Violation::new("publish-not-announced", self.wit(""), format!("PUBLISH #{i} never reached the handler: {}", self.detail())));
+            };
+            if size as usize != want.len() || pid != 1 + i as u16 {
+                return Err(Violation::new("announced-size", self.wit(""), format!("PUBLISH #{i} announced with size {size} / id {pid}, sent {} / {}: {}", want.len(), 1 + i, self.detail())));
+            }
+            if abandon {
+                continue;
+            }
+            let mut got: Vec<u8> = vec![];
+            let mut err = None;
+            for (_, r) in &log {
+                if let Rec::HPayload { k: kk, bytes, err: e } = r {
+                    if *kk == k {
+                        got.extend_from_slice(bytes);
+                        if e.is_some() {
+                            err = e.clone();
+                        }
+                    }
+                }
+            }
+            if let Some(e) = err {
+                return Err(Violation::new("reader-error", self.wit(""), format!("reader of PUBLISH #{i} got error {e}: {}", self.detail())));
+            }
+            if got != *want {
+                return Err(Violation::new(
+                    "payload-differs",
+                    self.wit(if got.len() != want.len() { "length" } else { "content" }),
+                    format!("handler of PUBLISH #{i} read {} but {} was sent: {}", rf::hex(&got), rf::hex(want), self.detail()),
+                ));
+            }
+        }
+        let n_enter = log.iter().filter(|(_, r)| matches!(r, Rec::HEnter { .. })).count();
+        if n_enter != self.payloads.len() {
+            return Err(Violation::new("handler-count", self.wit(""), format!("{n_enter} handler invocations for {} publishes: {}", self.payloads.len(), self.detail())));
+        }
+        // framing survived: every QoS 1 publish acknowledged once, in order; the trailing PINGREQ answered
+        let acks: Vec<u16> = self.conn.out.iter().filter_map(|(_, p)| if let Pkt::Ack { typ: 4, pid, .. } = p { Some(*pid) } else { None }).collect();
+        let want_acks: Vec<u16> = (1..=self.payloads.len() as u16).collect();
+        let reader_done = !abandon;
+        if reader_done && acks != want_acks {
+            return Err(Violation::new("acks", self.wit(""), format!("PUBACKs {acks:?}, expected {want_acks:?}: {}", self.detail())));
+        }
+        if self.cfg.ep.role == Role::Server && !self.conn.out.iter().any(|(_, p)| matches!(p, Pkt::PingResp)) {
+            return Err(Violation::new("stream-desynchronised", self.wit(""), format!("the PINGREQ after the publishes was not answered: {}", self.detail())));
+        }
+        if let Some(e) = &self.conn.parse_err {
+            return Err(Violation::new("wire-garbage", self.wit(""), format!("{e}: {}", self.detail())));
+        }
+        Ok(Outcome { obs: format!("{:?} reads={}", self.deliveries, self.reads), nontrivial: true })
+    }
+}
+
+pub fn configs(full: bool) -> Vec<RdCfg> {
+    let mut v = vec![];
+    for (ver, role) in crate::c05::roles() {
+        for read_mode in [ReadMode::All, ReadMode::Lazy, ReadMode::Abandon] {
+            for min_chunk in [0u32, 1, 4, 1024] {
+                for buffer in [4usize, 32 * 1024] {
+                    if !full && ((min_chunk == 1024 && buffer == 4) || (min_chunk == 1 && read_mode != ReadMode::Lazy)) {
+                        continue;
+                    }
+                    let mut ep = EpCfg::new(ver, role);
+                    ep.read_mode = read_mode;
+                    ep.min_chunk_size = min_chunk;
+                    ep.max_payload_buffer_size = buffer;
+                    ep.handler_auto = true;
+                    ep.max_receive = 16;
+                    v.push(RdCfg { ep, sizes: vec![12, 7], steps: if full { vec![1, 3, 6, 9] } else { vec![1, 6, 9] }, max_deliveries: if full { 6 } else { 4 } });
+                }
+            }
+        }
+    }
+    v
+}
+
+pub fn run_conn_part(ck: &mut Check, full: bool) {
+    let ecfg = ExploreCfg { max_dev: 0, max_execs: if full { 20_000_000 } else { 2_000_000 }, ..Default::default() };
+    for (i, c) in configs(full).iter().enumerate() {
+        ck.explore::<Rd>("reader", i, c, &ecfg);
+    }
+}
+
+pub fn trace(full: bool, idx: usize, choices: &[u16], script: Option<Vec<String>>, max_polls: u64) -> crate::simnet::ExecRecord {
+    let cfgs = configs(full);
+    let c = &cfgs[idx];
+    println!("reader #{idx}: {} {:?} min_chunk={} buffer={}", c.ep.label(), c.ep.read_mode, c.ep.min_chunk_size, c.ep.max_payload_buffer_size);
+    match script {
+        Some(sc) => crate::simnet::run_script::<Rd>(c, &sc, max_polls),
+        None => crate::simnet::run_one::<Rd>(c, choices, max_polls),
+    }
+}
